@@ -121,7 +121,7 @@ pub fn run_stack2(
     let _ = similar::verif::take_hits();
     let dl = expire_at.map(|_| instant_at(DL));
     let alg = seq.alg.to();
-    let (or, nr) = (seq.or(), seq.nr());
+    let (or, nr) = (seq.or_abs(), seq.nr_abs());
     // one diff, or the three-diff sequence through the same object
     macro_rules! go {
         ($d:expr, $o:expr, $n:expr) => {{
@@ -518,7 +518,7 @@ impl Prop for C08 {
         let mut seq = gen_seq_case(rng, size, None);
         crate::gen::maybe_reverse_empty(rng, &mut seq);
         // very rarely: a differing middle of more than 2^24 cells (LCS)
-        if rng.below(if tier == Tier::Quick { 6_000 } else { 30_000 }) == 0 {
+        if rng.below(if tier == Tier::Quick { 12_000 } else { 30_000 }) == 0 {
             let (o, n) = crate::gen::gen_many_cells(rng);
             seq.old_range = (0, o.len());
             seq.new_range = (0, n.len());
